@@ -29,6 +29,11 @@ AllStrategies == {"all_same", "uniform", "stake_weighted", "turbine", "turbine_f
 \* strategies whose sampling weights are the stakes: zero stake => zero weight
 StakeProportional == {"stake_weighted", "decay", "partition", "fa1_partition", "fa1_iid", "fa2"}
 FaitAccompli == {"fa1_partition", "fa1_iid", "fa2"}
+\* FA1-F: phase 2 draws the remaining seats from a fallback sampler whose weights are the
+\* residual stakes S'(v) = S(v) - floor(f*k) * Total/k
+FaitAccompli1 == {"fa1_partition", "fa1_iid"}
+\* ... and the fallback is the PartitionSampler (one seat per bin of equal residual stake)
+PartitionFallback == {"fa1_partition"}
 Decaying == {"decay"}
 
 ---------------------------------------------------------------------------
@@ -78,6 +83,29 @@ FaSeatsBoundary(c, st, k) ==
 FaSeatsInterior(c, st, k) ==
   LET tot == Total(st) IN FaSeatsOn(c, st, k, tot, {v \in Owed(st, k, tot) : ~OnBoundaryT(st, k, tot, v)})
 
+(* FA1: the weight of validator v in the fallback is its residual stake                    *)
+(*   S'(v) = S(v) - floor(f*k) * Total / k,                                               *)
+(* which is zero exactly when f*k is an integer (OnBoundary).  "A zero-weight validator   *)
+(* is never drawn" therefore means: such a validator holds EXACTLY its f*k guaranteed     *)
+(* seats.  The implementation builds the fallback from the ORIGINAL stakes when every     *)
+(* residual is zero (WeightedIndex rejects all-zero weights); this is no exception to the *)
+(* guarantee: then the guaranteed seats sum to k (MC_Sampler!AllZeroNoFallback), the      *)
+(* fallback has quorum size k' = 0 and draws nothing.                                     *)
+AllResidualsZero(st, k) == LET tot == Total(st) IN \A v \in Ids(st) : OnBoundaryT(st, k, tot, v)
+FaExactOn(c, st, k, tot, V) ==
+  \A v \in V : OnBoundaryT(st, k, tot, v) => Seats(c, v) = MinSeatsT(st, k, tot, v)
+\* the definition: over every validator
+FaExactAll(c, st, k) == FaExactOn(c, st, k, Total(st), Ids(st))
+\* the form evaluated on traces: a boundary validator that is owed nothing has stake 0 (NoZero)
+FaExactWhenNoResidual(c, st, k) ==
+  LET tot == Total(st) IN FaExactOn(c, st, k, tot, Owed(st, k, tot))
+
+\* FA1 with partition fallback: every residual is below one bin (Total/k), so a validator sits in
+\* at most two bins and the fallback draws it at most twice (doc comment of PartitionSampler)
+FaPartitionCap(c, st, k) ==
+  LET tot == Total(st) IN
+  \A v \in {c[j] : j \in DOMAIN c} : Seats(c, v) <= MinSeatsT(st, k, tot, v) + 2
+
 DecayCap(c, num, den) ==
   \A v \in {c[j] : j \in DOMAIN c} : Seats(c, v) <= CapSeats(num, den)
 
@@ -109,6 +137,16 @@ FloorPart(st, k, v) ==
 FirstPositive(st) == CHOOSE v \in Positive(st) : \A w \in Positive(st) : v <= w
 CanonFA(st, k) ==
   LET fl == FloorPart(st, k, 0) IN fl \o Repeat(FirstPositive(st), k - Len(fl))
+
+\* FA1 shape: floor seats, then one further seat for each of the first k' validators (id order)
+\* with a non-zero residual
+CanonFA1(st, k) ==
+  LET fl == FloorPart(st, k, 0)
+      RECURSIVE Extra(_, _)
+      Extra(v, m) == IF m = 0 \/ v = Len(st) THEN <<>>
+                     ELSE IF OnBoundary(st, k, v) THEN Extra(v + 1, m)
+                     ELSE <<v>> \o Extra(v + 1, m - 1)
+  IN fl \o Extra(0, k - Len(fl))
 
 \* round robin over the positive validators
 PosSeq(st) == LET P == Positive(st)
